@@ -1,7 +1,7 @@
 (* C02 - The SKR contains exactly what the KSR and the signing schema dictate. *)
 From Coq Require Import String.
 From KV Require Import Base.Prelude Base.Exn Base.Bytes Model.Data Model.Wire Model.KsrPolicy Model.Token Model.Sign
-  Proofs.WireProofs Proofs.SignProofs.
+  Proofs.WireProofs Proofs.SignProofs Proofs.SignExact Proofs.SignAll.
 From KV Require Gen.Wire Gen.Policy.
 
 Theorem C02_response_bundle_facts : forall H token_sign verify ds_hex i b schema ms ttl sn kks validate rb,
@@ -30,6 +30,45 @@ Theorem C02_every_slot : forall H token_sign verify ds_hex bs i schema ms ttl sn
   Forall2 (fun b rb => exists j, sign_bundle H token_sign verify ds_hex j b schema ms ttl sn kks validate = OK rb) bs rbs.
 Proof. exact sign_bundles_all. Qed.
 Print Assumptions C02_every_slot.
+
+(* the key set of a response bundle: nothing extra, nothing missing, each public key once *)
+Theorem C02_response_keys_exact : forall H token_sign verify ds_hex i b schema ms ttl sn kks validate rb,
+  sign_bundle H token_sign verify ds_hex i b schema ms ttl sn kks validate = OK rb ->
+  exists act pubs revs sks, lookup_slot i schema = Some act /\
+    fetch_keys ds_hex (a_publish act) b ms ttl kks true = OK pubs /\
+    fetch_keys ds_hex (a_revoke act) b ms ttl kks true = OK revs /\
+    fetch_keys ds_hex (a_sign act) b ms ttl kks false = OK sks /\
+    (forall x, In x (b_keys rb) ->
+       (exists ck, In ck pubs /\ x = with_ttl ttl (ck_dns ck)) \/
+       (exists ck rk, In ck revs /\ as_revoked (ck_dns ck) = OK rk /\ x = with_ttl ttl rk) \/
+       (exists ck, In ck sks /\ x = with_ttl ttl (ck_dns ck)) \/
+       (exists zk, In zk (b_keys b) /\ x = with_ttl ttl zk)) /\
+    (forall ck, In ck pubs -> has_pub (k_pubtxt (ck_dns ck)) (b_keys rb)) /\
+    (forall ck, In ck revs -> has_pub (k_pubtxt (ck_dns ck)) (b_keys rb)) /\
+    (forall ck, In ck sks -> has_pub (k_pubtxt (ck_dns ck)) (b_keys rb)) /\
+    (forall zk, In zk (b_keys b) -> has_pub (k_pubtxt zk) (b_keys rb)) /\
+    NoDup (map k_pubtxt (b_keys rb)).
+Proof. exact response_keys_exact. Qed.
+Print Assumptions C02_response_keys_exact.
+
+(* the signatures of a response bundle: one from every signer of the slot (returned by the token, verified in software), and from nobody else *)
+Theorem C02_every_signer_signed : forall H token_sign verify ds_hex i b schema ms ttl sn kks validate rb,
+  sign_bundle H token_sign verify ds_hex i b schema ms ttl sn kks validate = OK rb ->
+  exists act sks, lookup_slot i schema = Some act /\ fetch_keys ds_hex (a_sign act) b ms ttl kks false = OK sks /\
+    forall sk, In sk sks ->
+      exists s raw pubtxt, In s (b_sigs rb) /\ s_id s = k_id (ck_dns sk) /\ s_alg s = k_alg (ck_dns sk) /\
+        pk_pub (ck_p11 sk) = Some pubtxt /\
+        sign_using_p11 H token_sign (ck_p11 sk) raw (s_alg s) = OK (s_datatxt s) /\
+        verify pubtxt (s_alg s) raw (s_datatxt s) = true.
+Proof. exact every_signer_signed. Qed.
+Print Assumptions C02_every_signer_signed.
+
+Theorem C02_every_signature_from_a_signer : forall H token_sign verify ds_hex i b schema ms ttl sn kks validate rb,
+  sign_bundle H token_sign verify ds_hex i b schema ms ttl sn kks validate = OK rb ->
+  exists act sks, lookup_slot i schema = Some act /\ fetch_keys ds_hex (a_sign act) b ms ttl kks false = OK sks /\
+    forall s, In s (b_sigs rb) -> exists sk, In sk sks /\ s_id s = k_id (ck_dns sk) /\ s_alg s = k_alg (ck_dns sk).
+Proof. exact every_signature_from_a_signer. Qed.
+Print Assumptions C02_every_signature_from_a_signer.
 
 (* the container of keys to sign: TTL overridden, unique by public key *)
 Theorem C02_kts_add_invariant : forall ttl keys k, kts_inv ttl keys -> kts_inv ttl (kts_add ttl keys k).
